@@ -31,6 +31,8 @@ package keeper
 //@         ==> (exists r :: 0 <= r && r < len(result) && result[r] == feedP(feedsPricesMap, signalDeviations[j].SignalID, timestamp)))
 //@ ensures forall r :: 0 <= r && r < len(result) ==> (exists j :: 0 <= j && j < len(signalDeviations) && result[r] == feedP(feedsPricesMap, signalDeviations[j].SignalID, timestamp)
 //@         && (sendAll || sigDev(latestPricesMap, feedsPricesMap, signalDeviations[j].SignalID, timestamp) >= signalDeviations[j].HardDeviationBPS || sigDev(latestPricesMap, feedsPricesMap, signalDeviations[j].SignalID, timestamp) >= signalDeviations[j].SoftDeviationBPS))
+// (stepping stone: what the loop body computed for the current signal, in the terms of the specification)
+//@ assert after deviation: deviation == sigDev(latestPricesMap, feedsPricesMap, sd.SignalID, timestamp) && feedPrice == feedP(feedsPricesMap, sd.SignalID, timestamp) && sd == signalDeviations[#i]
 //@ loop 0: invariant shouldSend <==> ((sendAll && #i > 0) || (exists j :: 0 <= j && j < #i && sigDev(latestPricesMap, feedsPricesMap, signalDeviations[j].SignalID, timestamp) >= signalDeviations[j].HardDeviationBPS))
 //@ loop 0: invariant sendAll ==> len(newFeedPrices) == #i && (forall j :: 0 <= j && j < #i ==> newFeedPrices[j] == feedP(feedsPricesMap, signalDeviations[j].SignalID, timestamp))
 //@ loop 0: invariant forall j :: 0 <= j && j < #i && (sendAll || sigDev(latestPricesMap, feedsPricesMap, signalDeviations[j].SignalID, timestamp) >= signalDeviations[j].HardDeviationBPS || sigDev(latestPricesMap, feedsPricesMap, signalDeviations[j].SignalID, timestamp) >= signalDeviations[j].SoftDeviationBPS)
